@@ -27,7 +27,7 @@ DTF = [('f64', 'int'), ('f64', 'gauss'), ('c128', 'int'), ('f32', 'int1')]
 
 def BOUNDS(tier):
     return {'max_order_same_shape': 4 if tier == 'quick' else 5, 'max_order_broadcast': 4 if tier == 'quick' else 5,
-            'size_alphabets': 'distinct {1,p_i}, p=(2,3,4,5,6,7); full {1,2,3}^d for d<=3', 'rank_alphabet': '{1,q_k}, q=(2,3,2,3,..)',
+            'size_alphabets': 'distinct {1,p_i}, p=(2,3,4,5,6,7); full {1,2,3}^d for d<=3; uniform n^d (n=2,3; d=4,5) with uniform ranks', 'rank_alphabet': '{1,q_k}, q=(2,3,2,3,..)',
             'dtypes': DTF}
 
 
@@ -52,6 +52,15 @@ def cases(tier, seed):
                     for op in '+-*':
                         for dt, fam in DTF:
                             yield {'g': 'A', 'op': op, 'N': N, 'Ra': Ra, 'Rb': Rb, 'dt': dt, 'fam': fam, 's': salt}
+    # ---- A': uniform structures (all modes equal, all interior ranks equal, possibly equal for both operands): all interior cores
+    # of an operand - and of the result - have ONE shape, which the distinct-size / alternating-rank alphabets never produce
+    for d in (4, 5):
+        for n in (2, 3):
+            for r in (1, 2, 3):
+                for q in (2, 3):
+                    for op in '+-*':
+                        for dt, fam in DTF[:2]:
+                            yield {'g': 'A', 'op': op, 'N': [n] * d, 'Ra': [1] + [r] * (d - 1) + [1], 'Rb': [1] + [q] * (d - 1) + [1], 'dt': dt, 'fam': fam, 's': salt}
     # ---- B: second operand broadcast to the first (documented rule); C: first operand would have to expand
     for da in range(1, D + 1):
         sa = [s for s in space.sizes_distinct(da) if da <= 3 or s.count(1) <= 1]
